@@ -16,6 +16,8 @@ KRON_SHIM_NOTE = ("scipy.linalg.kron is absent in the installed SciPy; the check
 def setup_native():
     if REPO not in sys.path:
         sys.path.insert(0, REPO)
+    import warnings
+    warnings.filterwarnings("ignore", category=SyntaxWarning)
     import numpy
     import scipy.linalg
     if not hasattr(scipy.linalg, "kron"):
